@@ -307,7 +307,7 @@ package bundle
 // Bundle.WriteTo: a failing destination always surfaces as an error, and the
 // count returned is exactly what the destination accepted, on every return.
 //@ func (*Bundle).WriteTo
-//@   props C04 C19
+//@   props C04 C19 C18
 //@   returns (n, err)
 //@   requires w != nil && !failed(w) && !typeis(w, *CountingWriter)
 //@   requires forall i int :: 0 <= i && i < len(b.Exchanges) ==> b.Exchanges[i] != nil
